@@ -18,6 +18,7 @@ def main():
     ap.add_argument("prop")
     ap.add_argument("--tier", default="quick", choices=["quick", "thorough"])
     ap.add_argument("--replay", default=None)
+    ap.add_argument("--fast", action="store_true")
     a = ap.parse_args()
     tier = os.environ.get("VERIF_TIER") or a.tier
     if tier not in ("quick", "thorough"):
